@@ -11,6 +11,7 @@ pub mod frame;
 pub mod json;
 pub mod panics;
 pub mod procmon;
+pub mod qmon;
 pub mod refmodel;
 pub mod report;
 pub mod rng;
